@@ -1,6 +1,6 @@
 (* Case interpreter used by the extracted OCaml driver and by the in-kernel
    cross-check: one ASCII case line in, one canonical result line out. *)
-From BL Require Import Base.Prelude Base.Floats Base.Decimal Mach.Val Mach.Ops Mach.Func Drv.Show.
+From BL Require Import Base.Prelude Base.Floats Base.Decimal Mach.Val Mach.Ops Mach.Func Mach.Var Lang.Token Lang.Lex Lang.Ast Lang.Parse Drv.Show Drv.ShowLang.
 From Coq Require Import String.
 Local Open Scope N_scope.
 
@@ -63,9 +63,40 @@ Definition run_opn (O : oracle) (name : str) (args : list val) : res val :=
   else if is name "mid" then fn_mid args
   else err 999.
 
+Definition line_text (num : option N) (ts : list token) : str :=
+  match num with
+  | Some n => dec_of_N n ++ [32] ++ tokens_str ts
+  | None => tokens_str ts
+  end.
+
+Definition run_lex (src : str) : str :=
+  match lex src with
+  | Ok (num, ts) => show_lnum num ++ s2l "|" ++ show_tokens ts
+  | Err _ => s2l "?" | Panic => s2l "PANIC" | Hang => s2l "HANG"
+  end.
+Definition run_relist (src : str) : str :=
+  match lex src with
+  | Ok (num, ts) => hex_of_str (line_text num ts)
+  | Err _ => s2l "?" | Panic => s2l "PANIC" | Hang => s2l "HANG"
+  end.
+Definition run_ast (wc : bool) (src : str) : str :=
+  match lex src with
+  | Ok (num, ts) => show_ast_res wc (parse num ts)
+  | Err _ => s2l "?" | Panic => s2l "PANIC" | Hang => s2l "HANG"
+  end.
+
 Definition run_case (O : oracle) (line : str) : str :=
   match fields line with
+  | kind :: [] =>
+      if is kind "lex" then run_lex [] else if is kind "relist" then run_relist []
+      else if is kind "ast" then run_ast true [] else if is kind "astnc" then run_ast false []
+      else s2l "?"
   | kind :: name :: [] =>
+      if is kind "lex" then run_lex (str_of_hex name)
+      else if is kind "relist" then run_relist (str_of_hex name)
+      else if is kind "ast" then run_ast true (str_of_hex name)
+      else if is kind "astnc" then run_ast false (str_of_hex name)
+      else
       if is kind "from" then show_val (val_from_str (str_of_hex name))
       else if is kind "pos" then show_res show_val (fn_pos (Z.to_N (parse_Z name)))
       else s2l "?"
